@@ -14,7 +14,8 @@
        refuses to build without parameters, so None needs a hand-made struct literal);
      - compute_hmac walks the IPPT LIST (not the target list): results are in IPPT order, an IPPT whose number is
        not a target is skipped with a message, a target without IPPT gets no result (and to_cbor then panics on
-       the index);
+       the index); it first CLEARS the results of the block, so signing again replaces them (Props/C16.v
+       C16_resign_replaces);
      - scope-flag bits above bit 2 are dropped by from_bits_truncate for the three tests, but the serialized
        scope-flags integer is the raw u16 word.
    serde_cbor::to_vec on a Vec-backed writer cannot fail for these types, so the `.expect`/`.unwrap` on the
@@ -113,10 +114,15 @@ Fixpoint hmac_loop (mac : N -> list byte -> list byte -> option (list byte)) (ib
       then do r <- hmac_result mac ib key ippt; hmac_loop mac ib key rest (acc ++ [r])
       else hmac_loop mac ib key rest acc
   end.
+(* security.rs 531: `self.security_results = vec![];` — whatever the block carried before (an earlier compute_hmac: re-signing,
+   key rotation; results set through the builder; a decoded block) is dropped BEFORE the loop; the loop then pushes onto
+   `self.security_results`, i.e. onto the (now empty) results of the block *)
+Definition reset_results (ib : integrity_block) : integrity_block := set_ib_results ib [].
 Definition compute_hmac_with (mac : N -> list byte -> list byte -> option (list byte)) (key : list byte)
            (ippts : list (N * list byte)) (ib : integrity_block) : res integrity_block :=
-  do rs <- hmac_loop mac ib key ippts [];
-  Ok (set_ib_results ib rs).
+  let ib0 := reset_results ib in
+  do rs <- hmac_loop mac ib0 key ippts (ib_results ib0);
+  Ok (set_ib_results ib0 rs).
 (* the code's three hmac_shaNNN_compute functions are Hmac<ShaNNN>::new_from_slice(key).update(ippt).finalize() *)
 Definition compute_hmac := compute_hmac_with hmac_sha2.
 
